@@ -72,6 +72,10 @@ def decode_vec_items(hexbytes):
     return list(b[off + 8: off + 8 + n])
 
 
+class OpaqueValue(Exception):
+    pass
+
+
 class ValTokens:
     """values of one slice instance as tokens of the Lean driver (`-` none, `e` empty list, `a.b.c`)"""
 
@@ -83,6 +87,8 @@ class ValTokens:
         if hexbytes is None:
             return "-"
         if self.list_type:
+            if not all(c in "0123456789abcdef" for c in hexbytes[:16]):
+                raise OpaqueValue(hexbytes[:24])     # a value too large to be dumped (digest only): no list to hand the model
             items = decode_vec_items(hexbytes)
             return ".".join(map(str, items)) if items else "e"
         if hexbytes not in self.ids:
@@ -107,6 +113,15 @@ def queue_len(state, uuid, path):
 
 def comp_instances(h, legacy, patch=False):
     """yield (instance id, lines for the Lean driver, meta) for every (uuid, ty) key with a phase"""
+    for uuid, ty, start in comp_keys(h):
+        try:
+            for r in comp_instance(h, legacy, patch, uuid, ty, start):
+                yield r
+        except OpaqueValue as e:
+            yield ("%s/%s/%s" % (h.id, uuid[:8], ty), None, {"skipped": "a value of this key is dumped as a digest only (%s)" % e})
+
+
+def comp_keys(h):
     keys = []
     for idx, ev in enumerate(h.events):
         if ev["ev"] == "phase":
@@ -122,9 +137,11 @@ def comp_instances(h, legacy, patch=False):
     for ev in h.events:
         if ev["ev"] == "phase" and ev.get("nan") and ev["h"] in binds_:
             nan_keys.add((binds_[ev["h"]], ev["ty"]))
-    for uuid, ty, start in keys:
-        if ty not in SYS_DETECT or (uuid, ty) in nan_keys:
-            continue
+    return [(uuid, ty, start) for uuid, ty, start in keys if ty in SYS_DETECT and (uuid, ty) not in nan_keys]
+
+
+def comp_instance(h, legacy, patch, uuid, ty, start):
+    if True:
         path = h.types[ty]
         vt = ValTokens(ty == "V" and patch)
         n = h.nclients
@@ -138,7 +155,7 @@ def comp_instances(h, legacy, patch=False):
             init.append(vt.tok(comp_value(st, uuid, ty)))
         if not clean:
             yield ("%s/%s/%s" % (h.id, uuid[:8], ty), None, {"skipped": "state not clean at the first phase"})
-            continue
+            return
         inst = "%s/%s/%s" % (h.id, uuid[:8], ty)
         lines = ["sbegin comp %s %d %d %s %s" % (inst, n, 1 if legacy else 0, "l" if (ty == "V" and patch) else "r", " ".join(init))]
         sched = {}
@@ -1562,7 +1579,10 @@ def classify_promo(h, fails):
             e = h.events[i]
             # (an operation needs its frames to get out: marked in one frame, announced in the next, on the wire after that — only
             # what was followed by three whole frames of the former host before `NewHost` is certain to have left in time)
-            if e["ev"] == "op" and e.get("peer") == old and i < handled:
+            # (marks and despawns only: a value or a link the former host writes lands on the promoted peer while that one holds
+            # both roles, is seen by both of its chains and crosses the snapshot later on — recorded under D18 wherever in the
+            # window it is written)
+            if e["ev"] == "op" and e.get("peer") == old and i < handled and (e["op"] == "despawn" or (e["op"] == "spawn" and e.get("parent") is None)):
                 later = sum(1 for x in h.events[i:handled] if x["ev"] == "frame" and x["peer"] == old)
                 if later >= 3:
                     continue
